@@ -1,5 +1,6 @@
 import AggkitModel.Model.BridgeAPI
 import AggkitModel.Properties.C08
+import AggkitModel.Generated.CertFacts
 /-
 C12 — the bridge API's claim flow yields proofs the bridge contract would accept.
 Property theorems only: the L1-info-index lookups never name a leaf that does not cover the bridge (for every content
@@ -177,5 +178,11 @@ theorem C12_claim_proof (H : HashAlg α) (hinj : H.Inj) (n : Nat) (ops : List (H
     let ls := (absHistory [] ops).map (·.2)
     calcRoot H (ls.getD dc H.zero) (getProof H n s.db dc (vroot H n ls m)) dc = vroot H n ls m :=
   (C08_appendonly H hinj n ops wf _ _ rfl rfl m dc hm hdc).2
+
+
+namespace Aggkit.BridgeAPI
+/-- the block searches halve their interval (regenerated from /repo on every run) -/
+theorem C12_code_facts : Gen.CertFacts.binarySearchDivider = "2" := by decide
+end Aggkit.BridgeAPI
 
 end Aggkit
